@@ -69,6 +69,15 @@ theorem poll_solo (n : Node) (d : Dev) (hd : n.s.devs = [d]) (hq : Quiet n.s 0)
     · rw [if_neg hp]
   rw [h1, List.take_of_length_le hlen, List.drop_of_length_le hlen]
 
+/-- a poll with nothing to receive and no timer due changes nothing: extra polls in a schedule are harmless -/
+theorem poll_idle (n : Node) (d : Dev) (hd : n.s.devs = [d]) (hq : Quiet n.s 0)
+    (ht : (n.tp 0).hasPending = true → (n.tp 0).timer.isTime n.s.flavor n.s.now = false) (hrx : n.rxq = []) : poll n = n := by
+  rw [poll_solo n d hd hq ht (by simp [hrx]), hrx]
+  simp only [rxList, List.foldl_nil]
+  have : ({ n with rxq := [] } : Node) = n := by rw [← hrx]
+  rw [this]
+  exact claimTick_solo n d hd hq
+
 theorem findDev_solo (d : Dev) (h : d.source ≤ 253) : findDev [d] d.source = some 0 := by
   simp [findDev, h, findIdx]
 
@@ -92,7 +101,7 @@ theorem gate_quiet (s : St) (i : Nat) (m : Msg) (d : Dev) (hq : Quiet s i) (hd :
     intro h; have : d.source > 251 := h.1; omega
   have h3 : ¬ (s.listenOnly = true) := by rw [hq.notListen]; simp
   simp only [Option.getD_some, hd, srcOf, hlow, hic, hset, h1, h2, h3, hid, hp0, ↓reduceIte, ne_eq, not_true_eq_false,
-    Bool.false_eq_true, false_and, not_false_eq_true]
+    Bool.false_eq_true, false_and]
   have hl := hq.notListen
   congr 1
   cases s
@@ -103,16 +112,16 @@ theorem gate_quiet (s : St) (i : Nat) (m : Msg) (d : Dev) (hq : Quiet s i) (hd :
 /-- the message as `StartSendTPMessage` stores it: source forced to the device's address -/
 def pendMsg (m : Msg) (d : Dev) : Msg := { m with src := d.source }
 
-/-- the transport state of device 0 during a transfer -/
-def txTp (n : Node) (m : Msg) (seq tmo : Nat) : Nat → TpDev :=
-  fun j => if j = 0 then { pend := m, nextSeq := seq, timer := Sched.fromNow n.s.flavor n.s.now tmo, hasPending := true } else n.tp j
+/-- the transport state of device 0 during a transfer; the timeout `tmo` was armed at time `t0` -/
+def txTp (n : Node) (m : Msg) (seq t0 tmo : Nat) : Nat → TpDev :=
+  fun j => if j = 0 then { pend := m, nextSeq := seq, timer := Sched.fromNow n.s.flavor t0 tmo, hasPending := true } else n.tp j
 
 /-- **start**: `SendMsg` of a transport-flagged message of more than 8 bytes to another node: the RTS goes out -/
 theorem sendMsgTP_start (a : Node) (m : Msg) (d : Dev) (hq : Quiet a.s 0) (hd : a.s.devs[0]? = some d)
     (hlow : m.pgn &&& 0xff = 0) (hp0 : m.pgn ≠ 0) (hid : n2kToCanId m.prio m.pgn d.source m.dst ≠ 0)
     (htp : m.tp = true) (h9 : 9 ≤ m.len) (hdst : m.dst < 255) (hidle : (a.tp 0).pend.pgn = 0) :
     sendMsgTP a m (some 0) =
-      (a.upd (txTp a (pendMsg m d) 0 50) a.slots a.out
+      (a.upd (txTp a (pendMsg m d) 0 a.s.now 50) a.slots a.out
           (a.s.drv.sent ++ [cmFrame d.source m.dst (announceBytes 16 (pendMsg m d))]) a.rxq, true) := by
   unfold sendMsgTP
   rw [gate_quiet a.s 0 m d hq hd hlow hp0 hid]
@@ -165,23 +174,23 @@ theorem handleCTS_grant (n : Node) (i src b1 b2 : Nat) (d : Dev) (hq : Quiet n.s
   rfl
 
 /-- **the sender polls with a CTS (window `c`, next packet `seq+1`) in its receive queue** -/
-theorem poll_cts (a : Node) (d : Dev) (m : Msg) (peer seq tmo np : Nat) (sl : List Slot) (out : List Delivery)
+theorem poll_cts (a : Node) (d : Dev) (m : Msg) (peer seq t0 tmo np : Nat) (sl : List Slot) (out : List Delivery)
     (hd : a.s.devs = [d]) (hq : Quiet a.s 0) (hm : m.dst = peer) (hpeer : peer < 255) (hlen : m.len ≤ 223)
-    (hpgn : m.pgn < 2^24) (htmo : 0 < tmo ∧ tmo ≤ 100) (h64 : a.s.now + 100 < M64) (hseq : seq < 255) :
-    poll (a.upd (txTp a m seq tmo) sl out [] [cmFrame peer d.source (ctsBytes m.pgn np (seq + 1))]) =
-      a.upd (txTp a m (seq + min (tpCtsPackets np) (tpPacketCount m.len - seq)) 100) sl out
+    (hpgn : m.pgn < 2^24) (htmo : tmo ≤ 100) (ht0 : t0 ≤ a.s.now ∧ a.s.now < t0 + tmo) (h64 : a.s.now + 100 < M64) (hseq : seq < 255) :
+    poll (a.upd (txTp a m seq t0 tmo) sl out [] [cmFrame peer d.source (ctsBytes m.pgn np (seq + 1))]) =
+      a.upd (txTp a m (seq + min (tpCtsPackets np) (tpPacketCount m.len - seq)) a.s.now 100) sl out
         ((List.range (min (tpCtsPackets np) (tpPacketCount m.len - seq))).map fun x => dtFrame d.source m (seq + x)) [] := by
   have hsrc : d.source ≤ 251 := by
     obtain ⟨d', hd', hs, _⟩ := hq.dev
     rw [hd] at hd'; simp at hd'; subst hd'; exact hs
   have hd0 : a.s.devs[0]? = some d := by rw [hd]; rfl
-  generalize hN : a.upd (txTp a m seq tmo) sl out [] [cmFrame peer d.source (ctsBytes m.pgn np (seq + 1))] = N
+  generalize hN : a.upd (txTp a m seq t0 tmo) sl out [] [cmFrame peer d.source (ctsBytes m.pgn np (seq + 1))] = N
   have hNq : Quiet N.s 0 := by subst hN; exact upd_quiet _ _ _ _ _ _ hq
   have hNd : N.s.devs = [d] := by subst hN; exact hd
   have hNt : (N.tp 0).timer.isTime N.s.flavor N.s.now = false := by
     subst hN
     simp only [upd_tp, txTp, ↓reduceIte, upd_flavor, upd_now]
-    exact isTime_fromNow_early _ _ _ _ (Nat.le_refl _) (by omega) (by omega) (by omega)
+    exact isTime_fromNow_early _ _ _ _ ht0.1 ht0.2 (by omega) (by omega)
   rw [poll_solo N d hNd hNq (fun _ => hNt) (by subst hN; simp)]
   have hrx : N.rxq = [cmIn peer d.source (ctsBytes m.pgn np (seq + 1))] := by subst hN; rfl
   rw [hrx]
@@ -201,10 +210,10 @@ theorem poll_cts (a : Node) (d : Dev) (m : Msg) (peer seq tmo np : Nat) (sl : Li
   rw [hcts, hns]
   subst hN
   simp only [upd_setTp, upd_pushes, upd_tp, setTimer, List.nil_append, upd_flavor, upd_now]
-  have hres : ∀ X : Node, X = a.upd (txTp a m (seq + min (tpCtsPackets np) (tpPacketCount m.len - seq)) 100) sl out
+  have hres : ∀ X : Node, X = a.upd (txTp a m (seq + min (tpCtsPackets np) (tpPacketCount m.len - seq)) a.s.now 100) sl out
         ((List.range (min (tpCtsPackets np) (tpPacketCount m.len - seq))).map fun x => dtFrame d.source m (seq + x))
         [cmFrame peer d.source (ctsBytes m.pgn np (seq + 1))] →
-      claimTick { X with rxq := [] } = a.upd (txTp a m (seq + min (tpCtsPackets np) (tpPacketCount m.len - seq)) 100) sl out
+      claimTick { X with rxq := [] } = a.upd (txTp a m (seq + min (tpCtsPackets np) (tpPacketCount m.len - seq)) a.s.now 100) sl out
         ((List.range (min (tpCtsPackets np) (tpPacketCount m.len - seq))).map fun x => dtFrame d.source m (seq + x)) [] := by
     intro X hX
     subst hX
